@@ -141,6 +141,16 @@ where
         Err(e) => fail!("write-error", "{}", e),
     };
     let shx = shx.unwrap();
+    // a writer without index destination must leave a .shp that reads back the same
+    {
+        let (shp2, _) = match write_bytes_fins(&shapes, false, c.fin, c.mid_fins) {
+            Ok(x) => x,
+            Err(e) => fail!("write-error", "without index destination: {}", e),
+        };
+        let mut r = open_mem(&shp2, None).map_err(|e| Fail::new("open-error", format!("no-index writer: {}", err_str(&e))))?;
+        let got = collect_generic("mem/written-without-shx/iter_shapes", r.iter_shapes(), cap)?;
+        cmp_seq("mem/written-without-shx/iter_shapes", &expect, &got)?;
+    }
 
     for with in [false, true] {
         let tag = if with { "shx" } else { "noshx" };
@@ -193,6 +203,9 @@ where
                     None => fail!("count", "read_nth_shape_as({}) is None but {} shapes were written", i, n),
                 }
             }
+            // a sequential read on the reader that just served random accesses
+            let got = collect_generic("mem/shx/read_nth then iter_shapes", r.iter_shapes(), cap)?;
+            cmp_seq("mem/shx/read_nth then iter_shapes", &expect, &got)?;
         }
     }
 
@@ -234,11 +247,6 @@ where
                 }
             }
         }
-        // files on disk must hold the same bytes as the in-memory destinations
-        let dshp = std::fs::read(&p).map_err(|e| Fail::new("disk-io", e.to_string()))?;
-        let dshx = std::fs::read(&px).map_err(|e| Fail::new("disk-io", e.to_string()))?;
-        ensure!(dshp == shp, "disk-bytes-differ", "from_path .shp differs from the in-memory destination");
-        ensure!(dshx == shx, "disk-bytes-differ", "from_path .shx differs from the in-memory destination");
         for with in [true, false] {
             let tag = if with { "shx" } else { "noshx" };
             if !with {
